@@ -42,6 +42,8 @@ type planStep struct {
 	Racing  []rowRec    `json:"racing,omitempty"` // data flush started between WriteRows and CommitSequence of this entry
 	// RaceDuring: the flush is started by another goroutine right before the replicator's WriteRows of that entry
 	RaceDuring bool `json:"race_during,omitempty"`
+	// Fault: the creation of the table file of this data flush fails (the memory database stays frozen in the family)
+	Fault bool `json:"fault,omitempty"`
 }
 
 type plan struct {
@@ -529,6 +531,19 @@ func makePlan(r *rand.Rand, idx int, tier string, t0 int64) *plan {
 		tail = append(tail, action{Kind: "replicate", Steps: 1})
 	}
 	add(planStep{Kind: "arrive", Cycle: len(cycles), Actions: tail})
+	if tier == "thorough" || idx%3 == 0 {
+		// shutdown with a family that holds two memory databases: a data flush fails when it creates its table file
+		// (the frozen memory database stays, lindb never retries it), more entries go into the new one, the node is
+		// closed (every file-system operation of the close is a crash point)
+		fam := families[0]
+		c := len(cycles) + 1
+		add(planStep{Kind: "arrive", Cycle: c, Actions: []action{{Kind: "replicate", Steps: -1},
+			{Kind: "append", Rows: g.rowsFor(0, fam, 2), Writers: 1}, {Kind: "replicate", Steps: -1}}})
+		add(planStep{Kind: "data", Cycle: c, CycKind: "fault", Shard: 0, Family: fam, Fault: true})
+		add(planStep{Kind: "arrive", Cycle: c, Actions: []action{{Kind: "append", Rows: g.rowsFor(0, fam, 2), Writers: 1},
+			{Kind: "append", Rows: g.rowsFor(0, fam, 1), Writers: 1}, {Kind: "replicate", Steps: -1}, g.appendAction(2)}})
+		add(planStep{Kind: "close", Cycle: c + 1, CycKind: "shutdown"})
+	}
 	return p
 }
 
